@@ -379,3 +379,25 @@ def saxTree (calls : List Call) : Option Node :=
   | _ => none
 
 end Spec.XmlNs
+
+namespace Spec.XmlNs
+open Py
+
+/-! ### reading escaped character data back (XML 1.0 §4.1, §4.6) -/
+
+/-- Decoder for the references the writer emits: `&amp; &lt; &gt; &quot; &#10; &#13; &#9;`.
+`none`: a bare `<` or an `&` that does not start one of these references. -/
+def decodeRefs : Str → Option Str
+  | [] => some []
+  | '&' :: 'a' :: 'm' :: 'p' :: ';' :: r => (decodeRefs r).map ('&' :: ·)
+  | '&' :: 'l' :: 't' :: ';' :: r => (decodeRefs r).map ('<' :: ·)
+  | '&' :: 'g' :: 't' :: ';' :: r => (decodeRefs r).map ('>' :: ·)
+  | '&' :: 'q' :: 'u' :: 'o' :: 't' :: ';' :: r => (decodeRefs r).map ('"' :: ·)
+  | '&' :: '#' :: '1' :: '0' :: ';' :: r => (decodeRefs r).map ('\n' :: ·)
+  | '&' :: '#' :: '1' :: '3' :: ';' :: r => (decodeRefs r).map ('\r' :: ·)
+  | '&' :: '#' :: '9' :: ';' :: r => (decodeRefs r).map ('\t' :: ·)
+  | '&' :: _ => none
+  | '<' :: _ => none
+  | c :: r => (decodeRefs r).map (c :: ·)
+
+end Spec.XmlNs
